@@ -297,7 +297,9 @@ def compare(program, live_fi, ref_fi, effects=default_effects, **kw):
     r["ref_fi"] = ref_fi
     r["live_fi"] = live_fi
     if r["verdict"] == "violation":
-        r["vanished"] = vanished_names(program.model, live_fi, ref_fi)
+        r["vanished"] = [
+            n for n in vanished_names(program.model, live_fi, ref_fi)
+            if n not in (kw.get("ref_kw") or {}).get("virtual", {})]
     return r
 
 
